@@ -3,7 +3,10 @@
 // Three streams:
 //  1. direct: generated tables through the six table writers (model.Table, docx, odt, xlsx,
 //     pptx, htmldoc ParsedTable.ToMarkdown); op = the writer's output vs the Lean render; oracle =
-//     the harness's own GFM reader (gfm.go) gives back rows x columns x cell text.
+//     the harness's own GFM reader (gfm.go) gives back rows x columns x cell text. Cells are any
+//     text: pipes, newlines, empty, and backslashes wherever they may stand (genCell, backslashCells,
+//     and exhaustively over a small alphabet in escapeSweep) — the cells of every other stream
+//     (documents of all formats, rag documents, reader contents) come from the same generator.
 //  2. levels: every (level, offset, max) of a bounded box through rag.MarkdownOptions /
 //     rag.Chunk; oracle = clamp formula of the property text.
 //  3. documents: generated documents (headings of all levels, nested lists, tables with merged
@@ -58,9 +61,16 @@ var tableWriters = []string{"model", "docx", "odt", "xlsx", "pptx", "html"}
 
 const nbsp = "\u00a0"
 
-// cellAtoms: what cells are made of. No backslash (DESIGN Appendix C), no CR; non-ASCII spaces
-// only between letters (the model trims ASCII white space, docx/odt use strings.TrimSpace).
-var cellAtoms = []string{"a", "b", "xyz", "|", "||", "\n", " ", "  ", "x y", "é", "日本", "😀", "-", ":", "*", "_x_", "#", "<b>", "&", "1.", "---", ":-:", "\t", "0", "`", "[l](u)", "a" + nbsp + "b"}
+// cellAtoms: what cells are made of: any cell content, backslashes included (so a backslash lands in
+// front of a pipe, of another backslash, of a newline, at either end of a cell). No CR; non-ASCII
+// spaces only between letters (the model trims ASCII white space, docx/odt use strings.TrimSpace).
+var cellAtoms = []string{"a", "b", "xyz", "|", "||", "\n", " ", "  ", "x y", "é", "日本", "😀", "-", ":", "*", "_x_", "#", "<b>", "&", "1.", "---", ":-:", "\t", "0", "`", "[l](u)", "a" + nbsp + "b", `\`, `\`, `\|`}
+
+// backslashCells: cell texts as they occur in documents about regular expressions, paths, LaTeX or
+// shell fragments: the backslash is a character of the cell like any other and has to be read back,
+// whatever follows it (a pipe, another backslash, the end of the cell, a newline, punctuation).
+var backslashCells = []string{`\`, `\|`, `|\`, `\\`, `\\|`, `\|\|`, `a\|b`, `a\`, `\a`, `^(yes\|no)$`, `C:\|D:\`, `C:\dir\`, `\\\|`, `a\||b`, `a|\|b`,
+	"a\\\nb", "\\\n|", `\*x\*`, `\n`, `x \| y`, `\ |`, `| \`, `\|\`, `$a \mid b$ \| c`, `\--- | \---`}
 
 func genCell(r *hx.Rng) string {
 	switch r.Intn(10) {
@@ -68,6 +78,8 @@ func genCell(r *hx.Rng) string {
 		return ""
 	case 1:
 		return hx.Pick(r, []string{"|", "a|b", "|a", "a|", "a\nb", "\n", " ", " a ", "a||b", "| |", "a |\n| b", "--- | ---"})
+	case 2:
+		return hx.Pick(r, backslashCells)
 	}
 	n := r.Range(1, 5)
 	var sb strings.Builder
@@ -477,6 +489,55 @@ func runSpanTable(c *hx.Ctx, w string, t [][]Cell) {
 	checkGrid(c, "merged-"+w, md, spanGrid(t), kase)
 }
 
+// backslashKind names where the backslashes of a cell stand (input distribution).
+func backslashKind(s string) string {
+	switch {
+	case !strings.Contains(s, `\`):
+		return ""
+	case strings.Contains(s, `\\|`):
+		return "backslashes before a pipe"
+	case strings.Contains(s, `\|`):
+		return "backslash before a pipe"
+	case strings.HasSuffix(normCell(s), `\`):
+		return "backslash at the end"
+	}
+	return "backslash elsewhere"
+}
+
+// escapeSweep: every cell text over the bytes that matter to a pipe-table row — backslash, pipe, a
+// letter, a space (thorough: a newline too) — up to a length, four consecutive ones per 2x2 table,
+// through all six writers: whatever the order of backslashes and pipes in a cell, the table reads
+// back as the same 2x2 cell texts.
+func escapeSweep(c *hx.Ctx) {
+	alphabet, maxLen := []string{`\`, "|", "x", " "}, 4
+	if c.Thorough() {
+		alphabet, maxLen = []string{`\`, "|", "x", " ", "\n"}, 5
+	}
+	var cells []string
+	level := []string{""}
+	for l := 0; l <= maxLen; l++ {
+		cells = append(cells, level...)
+		var next []string
+		for _, p := range level {
+			for _, a := range alphabet {
+				next = append(next, p+a)
+			}
+		}
+		level = next
+	}
+	for len(cells)%4 != 0 {
+		cells = append(cells, `\|`)
+	}
+	for i := 0; i < len(cells); i += 4 {
+		t := [][]string{{cells[i], cells[i+1]}, {cells[i+2], cells[i+3]}}
+		for _, w := range tableWriters {
+			runPlainTable(c, w, t, true)
+		}
+		c.Count("escape-sweep table")
+		c.Case(encTable(t), true)
+	}
+}
+
 func direct(c *hx.Ctx) {
 	// fixed witnesses first (B14, F5, CR handling)
 	fixed := [][][]string{
@@ -484,6 +545,10 @@ func direct(c *hx.Ctx) {
 		{{"h1", "h2"}, {"a|b", "c\nd"}, {"", " x "}},
 		{{"|"}, {"||"}, {"\n"}},
 		{{"a", "b", "c"}},
+		// backslashes are cell text: in front of a pipe, at the end of a cell, doubled, alone
+		{{"pattern", "meaning"}, {`^(yes\|no)$`, "yes or no | basic regex"}, {`a\`, `|`}, {"", `C:\|D:\`}},
+		{{`\`, `\|`}, {`\\|`, `|\`}},
+		{{`h\|`}, {"\\\n|"}},
 	}
 	for _, t := range fixed {
 		for _, w := range tableWriters {
@@ -510,6 +575,7 @@ func direct(c *hx.Ctx) {
 			}
 		}
 	}
+	escapeSweep(c)
 	n := c.N(400, 6000)
 	for i := 0; i < n; i++ {
 		r := c.Rng.Fork(uint64(1)<<40 | uint64(i))
@@ -529,8 +595,11 @@ func direct(c *hx.Ctx) {
 		nontrivial := false
 		for _, row := range t {
 			for _, s := range row {
-				if strings.ContainsAny(s, "|\n") {
+				if strings.ContainsAny(s, "|\n\\") {
 					nontrivial = true
+				}
+				if k := backslashKind(s); k != "" {
+					c.Count("cell with " + k)
 				}
 			}
 		}
@@ -564,7 +633,7 @@ func direct(c *hx.Ctx) {
 }
 
 func Run(c *hx.Ctx) {
-	c.Rep.Rule = "direct: random tables (1..14 rows x 1..12 cols; cells from an alphabet with '|', newline, spaces, empty, unicode, markdown punctuation; no backslash) through all six ToMarkdown writers, docx/odt also with random ColSpan/vertical-merge cells; levels: the full box level -1..10 x offset -3..8 x max 0..7; documents: random block sequences (headings of every level the format expresses — DOCX 1..9 as built-in style / direct outlineLvl / custom style / derived style, ODT 1..10, HTML 1..6, PPTX titles —, paragraphs, nested lists depth<=3, tables with merges) written by independent DOCX/ODT/PPTX/HTML/XLSX writers under all Markdown options (metadata x TOC x offset -2..+7 x max 1..6, enumerated); heading sweep: per format files with a heading of every expressible level, each read under all 70 configurations (offset -2..+7 x max 0..6) through Reader.MarkdownWithRAGOptions, tabula.Open.ToMarkdownWithOptions and once through Reader.Markdown, Reader.MarkdownWithOptions, tabula.Open.ToMarkdown; head tables: the same random tables through model/docx/htmldoc ToMarkdown with 0..all leading rows marked as header rows (IsHeader / HasHeader as a thead, th-only rows, td-in-thead or a row-header column produce them), and in the documents as HTML thead/tbody/tfoot/bare tr with th or td, DOCX w:tblHeader, ODT table-header-rows(+table-rows), PPTX firstRow; heading texts drawn from a pool of 2-3 recurring titles in half of the documents; rag documents: model.Document (headings 1..6 as model.Heading or as heading-like paragraph listed in Layout.Headings, recurring titles adjacent and apart, paragraphs, lists depth<=3 of which a third start with a nested item, tables with header marks, page breaks) through rag.ChunkDocument(doc).ToMarkdownWithOptions under offset -2..+7 x max 1..6 x metadata x TOC x chunk separators x page numbers x chunk ids x document title; call histories: every generated document also through ONE Reader asked 4..7 times (Markdown / MarkdownWithOptions / MarkdownWithRAGOptions with offset -2..+7 x max 0..6 x metadata x TOC at random, repeats of an earlier configuration, Text() and Document() in between), the sweep files through one Reader under all 70 configurations in random order, every second rag document through one ChunkCollection rendered 3..5 times, each rendering checked under its own options; xlsx placement: three of five worksheet tables start below 1..9 blank rows and/or right of 1..6 blank columns (blank rows absent, empty <row> elements, or rows of value-less cells; optionally blank row/cells after the table); document model: every generated file and 150 (thorough 2500) arbitrary reader contents per format built through the VerifNewReader hooks (heading levels -2..12, list levels -1..5, numIds/styles with and without a numbering definition, empty and Markdown-like texts, empty/ragged/nil tables, header/footer texts equal to paragraphs, 0..4 slides with placeholders and notes, 0..3 sheets with ragged rows, empty-typed and merged cells and any MaxCol >= -1, slide/sheet selections with invalid indices, four HTML element lists per reader, all option flags, offset -3..8, max 0..7, metadata strings needing %q) through Markdown / MarkdownWithOptions / MarkdownWithRAGOptions (and tabula.Open.ToMarkdownWithOptions on files), 200 (3000) arbitrary chunk collections and lists through the chunk writers, each call tied to the Lean model; 300 (4000) line-soup documents plus every Markdown string seen through the harness reader vs the Lean reading spec; non-trivial = table containing '|' or newline, document with a table/heading/list; distinct by canonical input"
+	c.Rep.Rule = "direct: random tables (1..14 rows x 1..12 cols; cells from an alphabet with '|', newline, spaces, empty, unicode, markdown punctuation and backslashes — about one cell in five carries one: in front of a pipe, of another backslash, of a newline, at the end of the cell, alone; regular-expression, path and LaTeX-like cells) through all six ToMarkdown writers; escape sweep: EVERY cell text over {backslash, pipe, letter, space} up to length 4 (thorough: plus newline, up to length 5), four per 2x2 table, through all six writers, docx/odt also with random ColSpan/vertical-merge cells; levels: the full box level -1..10 x offset -3..8 x max 0..7; documents: random block sequences (headings of every level the format expresses — DOCX 1..9 as built-in style / direct outlineLvl / custom style / derived style, ODT 1..10, HTML 1..6, PPTX titles —, paragraphs, nested lists depth<=3, tables with merges) written by independent DOCX/ODT/PPTX/HTML/XLSX writers under all Markdown options (metadata x TOC x offset -2..+7 x max 1..6, enumerated); heading sweep: per format files with a heading of every expressible level, each read under all 70 configurations (offset -2..+7 x max 0..6) through Reader.MarkdownWithRAGOptions, tabula.Open.ToMarkdownWithOptions and once through Reader.Markdown, Reader.MarkdownWithOptions, tabula.Open.ToMarkdown; head tables: the same random tables through model/docx/htmldoc ToMarkdown with 0..all leading rows marked as header rows (IsHeader / HasHeader as a thead, th-only rows, td-in-thead or a row-header column produce them), and in the documents as HTML thead/tbody/tfoot/bare tr with th or td, DOCX w:tblHeader, ODT table-header-rows(+table-rows), PPTX firstRow; heading texts drawn from a pool of 2-3 recurring titles in half of the documents; rag documents: model.Document (headings 1..6 as model.Heading or as heading-like paragraph listed in Layout.Headings, recurring titles adjacent and apart, paragraphs, lists depth<=3 of which a third start with a nested item, tables with header marks, page breaks) through rag.ChunkDocument(doc).ToMarkdownWithOptions under offset -2..+7 x max 1..6 x metadata x TOC x chunk separators x page numbers x chunk ids x document title; call histories: every generated document also through ONE Reader asked 4..7 times (Markdown / MarkdownWithOptions / MarkdownWithRAGOptions with offset -2..+7 x max 0..6 x metadata x TOC at random, repeats of an earlier configuration, Text() and Document() in between), the sweep files through one Reader under all 70 configurations in random order, every second rag document through one ChunkCollection rendered 3..5 times, each rendering checked under its own options; xlsx placement: three of five worksheet tables start below 1..9 blank rows and/or right of 1..6 blank columns (blank rows absent, empty <row> elements, or rows of value-less cells; optionally blank row/cells after the table); document model: every generated file and 150 (thorough 2500) arbitrary reader contents per format built through the VerifNewReader hooks (heading levels -2..12, list levels -1..5, numIds/styles with and without a numbering definition, empty and Markdown-like texts, empty/ragged/nil tables, header/footer texts equal to paragraphs, 0..4 slides with placeholders and notes, 0..3 sheets with ragged rows, empty-typed and merged cells and any MaxCol >= -1, slide/sheet selections with invalid indices, four HTML element lists per reader, all option flags, offset -3..8, max 0..7, metadata strings needing %q) through Markdown / MarkdownWithOptions / MarkdownWithRAGOptions (and tabula.Open.ToMarkdownWithOptions on files), 200 (3000) arbitrary chunk collections and lists through the chunk writers, each call tied to the Lean model; 300 (4000) line-soup documents plus every Markdown string seen through the harness reader vs the Lean reading spec; non-trivial = table containing '|', newline or backslash, document with a table/heading/list; distinct by canonical input"
 	direct(c)
 	levels(c)
 	documents(c)
